@@ -34,6 +34,8 @@ func (handlerSelf *HandlerDef) Post(fn func()) {
 	}
 	verifPoint("handler.post.afterClosedCheck", handlerSelf)
 
+	// Close() may close the channel after the check above: the work is dropped then
+	defer func() { recover() }()
 	handlerSelf.ch <- fn
 }
 
